@@ -1,0 +1,103 @@
+//go:build verif
+
+// Contracts for package net (message framing), checked by /verif/govc (see /verif/DESIGN.md).
+// This file contains comments only and is compiled only with the build tag "verif".
+
+package net
+
+// The documented wire layout (doc/about-qimessaging.md): 28-byte header, big-endian magic,
+// then little-endian id, size, version, type, flags, service, object, action.
+//@ spec be32(d [int]int, p int) int := d[p+3] + 256 * d[p+2] + 65536 * d[p+1] + 16777216 * d[p]
+//@ spec isbe32(d [int]int, p int, v int) bool := d[p+3] == v % 256 && d[p+2] == (v / 256) % 256 && d[p+1] == (v / 65536) % 256 && d[p] == (v / 16777216) % 256
+//@ spec hdrenc(d [int]int, p int, h Header) bool := isbe32(d, p, h.Magic) && isle32(d, p+4, h.ID) && isle32(d, p+8, h.Size) && isle16(d, p+12, h.Version) && d[p+14] == h.Type && d[p+15] == h.Flags && isle32(d, p+16, h.Service) && isle32(d, p+20, h.Object) && isle32(d, p+24, h.Action)
+//@ spec hdrdec(d [int]int, p int, h Header) bool := h.Magic == be32(d, p) && h.ID == le32(d, p+4) && h.Size == le32(d, p+8) && h.Version == le16(d, p+12) && h.Type == d[p+14] && h.Flags == d[p+15] && h.Service == le32(d, p+16) && h.Object == le32(d, p+20) && h.Action == le32(d, p+24)
+//@ spec validbytes(d [int]int, p int) bool := be32(d, p) == 0x42dead42 && le16(d, p+12) == 0 && 1 <= d[p+14] && d[p+14] <= 8
+//@ spec validhdr(h Header) bool := h.Magic == 0x42dead42 && h.Version == 0 && 1 <= h.Type && h.Type <= 8
+
+//@ func NewHeader(typ uint8, service uint32, object uint32, action uint32, id uint32) (result Header)
+//@   tags C01 C04
+//@   pure
+//@   ensures result.Magic == 0x42dead42 && result.ID == id && result.Size == 0 && result.Version == 0 && result.Type == typ && result.Flags == 0 && result.Service == service && result.Object == object && result.Action == action
+
+//@ func NewMessage(header Header, payload []byte) (result Message)
+//@   tags C01 C04
+//@   pure
+//@   ensures result.Header.Size == uint32(len(payload)) && sameslice(result.Payload, payload)
+//@   ensures result.Header.Magic == header.Magic && result.Header.ID == header.ID && result.Header.Version == header.Version && result.Header.Type == header.Type && result.Header.Flags == header.Flags && result.Header.Service == header.Service && result.Header.Object == header.Object && result.Header.Action == header.Action
+
+//@ func (h *Header) writeMagic(w io.Writer) (err error)
+//@   tags C01
+//@   encoder w fixed 4
+//@   ensures err == nil ==> isbe32(w.data, old(w.len), h.Magic)
+
+//@ func (h *Header) Write(w io.Writer) (err error)
+//@   tags C01
+//@   encoder w fixed 28
+//@   ensures err == nil ==> hdrenc(w.data, old(w.len), *h)
+
+//@ func (h *Header) readMagic(r io.Reader) (err error)
+//@   tags C01 C07 C08
+//@   decoder r fixed 4
+//@   modifies h.Magic
+//@   ensures err == nil ==> h.Magic == be32(r.data, old(r.pos))
+
+//@ func (h *Header) Read(r io.Reader) (err error)
+//@   tags C01 C07 C08
+//@   decoder r
+//@   modifies *h
+//@   ensures r.pos <= old(r.pos) + 28
+//@   ensures err == nil ==> r.pos == old(r.pos) + 28 && hdrdec(r.data, old(r.pos), *h) && validhdr(*h)
+//@   ensures[C08] old(r.len) - old(r.pos) < 28 ==> err != nil
+//@   ensures[C01] r.faultfree && old(r.len) - old(r.pos) >= 28 && validbytes(r.data, old(r.pos)) ==> err == nil
+//@   ensures[C01] old(r.len) - old(r.pos) >= 4 && be32(r.data, old(r.pos)) != 0x42dead42 ==> err != nil && r.pos <= old(r.pos) + 4
+//@   ensures[C01] old(r.len) - old(r.pos) >= 14 && le16(r.data, old(r.pos) + 12) != 0 ==> err != nil && r.pos <= old(r.pos) + 14
+//@   ensures[C01] old(r.len) - old(r.pos) >= 15 && (r.data[old(r.pos) + 14] == 0 || r.data[old(r.pos) + 14] > 8) ==> err != nil && r.pos <= old(r.pos) + 15
+
+//@ func readError(m *Message) (err error)
+//@   trusted
+//@   ensures err != nil
+
+//@ func (m *Message) Write(w io.Writer) (err error)
+//@   tags C01 C10
+//@   requires w != nil
+//@   requires len(m.Payload) <= 4294967267
+//@   modifies w.len, w.writes, w.data
+//@   ensures w.len >= old(w.len)
+//@   ensures forall j int {w.data[j]} :: j < old(w.len) ==> w.data[j] == old(w.data[j])
+//@   ensures len(m.Payload) != m.Header.Size ==> err != nil && w.len == old(w.len) && w.writes == old(w.writes)
+//@   ensures err == nil ==> w.len == old(w.len) + 28 + len(m.Payload) && hdrenc(w.data, old(w.len), m.Header)
+//@   ensures err == nil ==> forall j int {w.data[j]} :: old(w.len) + 28 <= j && j < w.len ==> w.data[j] == m.Payload[j - old(w.len) - 28]
+//@   ensures w.accepting && len(m.Payload) == m.Header.Size ==> err == nil
+//@   ensures[C10] w.accepting && len(m.Payload) == m.Header.Size ==> w.writes == old(w.writes) + 1
+//@   ensures[C10] w.writes <= old(w.writes) + 1 || !w.accepting
+
+//@ func (m *Message) Read(r io.Reader) (err error)
+//@   tags C01 C07 C08
+//@   opt alloclimit 10485760
+//@   decoder r
+//@   modifies *m
+//@   ensures err == nil ==> validhdr(m.Header) && m.Header.Size <= 10485760 && hdrdec(r.data, old(r.pos), m.Header)
+//@   ensures err == nil ==> r.pos == old(r.pos) + 28 + m.Header.Size && len(m.Payload) == m.Header.Size
+//@   ensures err == nil ==> forall j int {m.Payload[j]} :: 0 <= j && j < len(m.Payload) ==> m.Payload[j] == r.data[old(r.pos) + 28 + j]
+//@   ensures[C08] old(r.len) - old(r.pos) < 28 ==> err != nil
+//@   ensures[C08] old(r.len) - old(r.pos) >= 28 && old(r.len) - old(r.pos) < 28 + le32(r.data, old(r.pos) + 8) ==> err != nil
+//@   ensures[C01] r.faultfree && old(r.len) - old(r.pos) >= 28 && validbytes(r.data, old(r.pos)) && le32(r.data, old(r.pos) + 8) <= 10485760 && old(r.len) - old(r.pos) >= 28 + le32(r.data, old(r.pos) + 8) ==> err == nil
+//@   ensures[C01] old(r.len) - old(r.pos) >= 28 && (!validbytes(r.data, old(r.pos)) || le32(r.data, old(r.pos) + 8) > 10485760) ==> err != nil && r.pos <= old(r.pos) + 28
+//@   ensures[C01] err == io.EOF ==> r.pos == old(r.pos)
+
+// Round trip (no code): what Write puts on the wire is what Read accepts and decodes to the same
+// header; a written valid header satisfies Read's acceptance condition. Together with the exact
+// cursor arithmetic of the two contracts (Write appends 28+len bytes, Read consumes 28+Size) this
+// gives "read back identical" and, by induction on the number of frames, the back-to-back case.
+//@ lemma[C01] rt_le32(d [int]int, p int, v int): 0 <= v && v < 4294967296 && isle32(d, p, v) ==> le32(d, p) == v
+//@ lemma[C01] rt_le16(d [int]int, p int, v int): 0 <= v && v < 65536 && isle16(d, p, v) ==> le16(d, p) == v
+//@ lemma[C01] rt_be32(d [int]int, p int, v int): 0 <= v && v < 4294967296 && isbe32(d, p, v) ==> be32(d, p) == v
+//@ lemma[C01] hdr_roundtrip(d [int]int, p int, h Header): hdrenc(d, p, h) ==> hdrdec(d, p, h)
+//@   using rt_be32(d, p, h.Magic), rt_le32(d, p+4, h.ID), rt_le32(d, p+8, h.Size), rt_le16(d, p+12, h.Version), rt_le32(d, p+16, h.Service), rt_le32(d, p+20, h.Object), rt_le32(d, p+24, h.Action)
+//@ lemma[C01] hdr_valid_accept(d [int]int, p int, h Header): hdrenc(d, p, h) && validhdr(h) ==> validbytes(d, p)
+//@   using hdr_roundtrip(d, p, h)
+//@ lemma[C01] hdr_accept_valid(d [int]int, p int, h Header): hdrenc(d, p, h) && validbytes(d, p) ==> validhdr(h)
+//@   using hdr_roundtrip(d, p, h)
+//@ lemma[C01] hdr_injective(d [int]int, p int, a Header, b Header): hdrenc(d, p, a) && hdrenc(d, p, b) ==> a == b
+//@   using hdr_roundtrip(d, p, a), hdr_roundtrip(d, p, b)
+//@ lemma[C01] frame_concat(p int, size1 int, size2 int): 0 <= size1 && 0 <= size2 ==> (p + 28 + size1) + 28 + size2 == p + (28 + size1) + (28 + size2)
